@@ -2,6 +2,7 @@
    Only statements, closed by [exact]; proofs live in Proofs/Vfs*.v. *)
 From Coq Require Import List NArith Bool.
 From FB Require Import Model.Pseudo Gen.VfsTable Model.Vfs Proofs.VfsCodec Proofs.VfsAlloc Proofs.VfsInv Proofs.VfsRouting Proofs.VfsIssued Proofs.PseudoWalk Proofs.VfsConsistent Proofs.VfsIdmap Proofs.VfsAsync.
+From FB Require Lib.RustExpr Gen.RustPure Proofs.RustPure Proofs.RustPureVfs.
 Import ListNotations.
 Local Open Scope N_scope.
 
@@ -162,6 +163,39 @@ Example C07_nonvacuous_crossing : exists s, breach s /\ aget ROOT_ID (v_mps s) =
   ps_walk (v_ps s) ROOT_ID (map CNorm [2; 3]) = Ok (Some 4) /\ aget 4 (v_mps s) <> None /\ aget 3 (v_mps s) = None.
 Proof. exact ex_crossing. Qed.
 
+(* ---- tie to the source text (Gen/RustPure.v is re-translated from src/api/vfs/mod.rs on every run): the model's
+   inode codec ([mk_vino], [fs_idx], [ino_of], the pseudo-fs test, [convert_inode]) is what the bodies of VfsInode::new /
+   fs_idx / ino / is_pseudo_fs and Vfs::convert_inode compute under rustc's integer semantics, for all arguments *)
+Theorem C07_src_vfs_inode_new : forall idx ino, idx < 256 -> ino < 18446744073709551616 ->
+  RustExpr.eval_fn RustExpr.Debug RustPure.vfs_inode_new_src [RustExpr.VInt RustExpr.U8 idx; RustExpr.VInt RustExpr.U64 ino] =
+  if N.land ino (N.lnot VFS_MAX_INO 64) =? 0 then RustExpr.Val (RustExpr.VInt RustExpr.U64 (mk_vino idx ino))
+  else RustExpr.Panic RustExpr.PAssert.
+Proof. exact RustPureVfs.src_vfs_inode_new. Qed.
+Theorem C07_src_vfs_inode_fs_idx : forall x, x < 18446744073709551616 ->
+  RustExpr.eval_fn RustExpr.Debug RustPure.vfs_inode_fs_idx_src [RustExpr.VInt RustExpr.U64 x] =
+  RustExpr.Val (RustExpr.VInt RustExpr.U8 (fs_idx x)).
+Proof. exact RustPureVfs.src_vfs_inode_fs_idx. Qed.
+Theorem C07_src_vfs_inode_ino : forall x, x < 18446744073709551616 ->
+  RustExpr.eval_fn RustExpr.Debug RustPure.vfs_inode_ino_src [RustExpr.VInt RustExpr.U64 x] =
+  RustExpr.Val (RustExpr.VInt RustExpr.U64 (ino_of x)).
+Proof. exact RustPureVfs.src_vfs_inode_ino. Qed.
+Theorem C07_src_vfs_inode_is_pseudo_fs : forall x, x < 18446744073709551616 ->
+  RustExpr.eval_fn RustExpr.Debug RustPure.vfs_inode_is_pseudo_fs_src [RustExpr.VInt RustExpr.U64 x] =
+  RustExpr.Val (RustExpr.VBool (fs_idx x =? 0)).
+Proof. exact RustPureVfs.src_vfs_inode_is_pseudo_fs. Qed.
+Theorem C07_src_vfs_convert_inode : forall idx ino, idx < 256 -> ino < 18446744073709551616 ->
+  RustExpr.eval_fn RustExpr.Debug RustPure.vfs_convert_inode_src [RustExpr.VInt RustExpr.U8 idx; RustExpr.VInt RustExpr.U64 ino] =
+  RustPureVfs.conv_result (convert_inode idx ino).
+Proof. exact RustPureVfs.src_vfs_convert_inode. Qed.
+Theorem C07_src_codec_roundtrip : forall idx ino, idx < 256 -> ino <= VFS_MAX_INO ->
+  exists x, RustExpr.eval_fn RustExpr.Debug RustPure.vfs_inode_new_src [RustExpr.VInt RustExpr.U8 idx; RustExpr.VInt RustExpr.U64 ino] =
+              RustExpr.Val (RustExpr.VInt RustExpr.U64 x) /\
+            RustExpr.eval_fn RustExpr.Debug RustPure.vfs_inode_fs_idx_src [RustExpr.VInt RustExpr.U64 x] =
+              RustExpr.Val (RustExpr.VInt RustExpr.U8 idx) /\
+            RustExpr.eval_fn RustExpr.Debug RustPure.vfs_inode_ino_src [RustExpr.VInt RustExpr.U64 x] =
+              RustExpr.Val (RustExpr.VInt RustExpr.U64 ino).
+Proof. exact RustPureVfs.src_codec_roundtrip. Qed.
+
 Print Assumptions C07_ino_codec.
 Print Assumptions C07_ino_codec_injective.
 Print Assumptions C07_alloc.
@@ -185,3 +219,9 @@ Print Assumptions C07_ino_consistent_pseudo_readdir.
 Print Assumptions C07_async_same.
 Print Assumptions C07_async_calls.
 Print Assumptions C07_async_routing.
+Print Assumptions C07_src_vfs_inode_new.
+Print Assumptions C07_src_vfs_inode_fs_idx.
+Print Assumptions C07_src_vfs_inode_ino.
+Print Assumptions C07_src_vfs_inode_is_pseudo_fs.
+Print Assumptions C07_src_vfs_convert_inode.
+Print Assumptions C07_src_codec_roundtrip.
